@@ -34,14 +34,40 @@ def fragB (es : List MEv) : Bool :=
   | none => false
   | some t => es.dropLast.all (fun ev => okEv ev && !isTermOp ev.type) && okEv t && isTermOp t.type && balanced es
 
+/-- an event with a defined encoding that neither ends a stream nor opens / closes a loop -/
+def neutralEv (ev : MEv) : Bool := okEv ev && !isTermOp ev.type && !(ev.type == mds_LP) && !(ev.type == mds_LPF)
+
 end Ctrmml.MdsRead
 
 namespace Ctrmml.MdsFile
-open Ctrmml Ctrmml.Mds
+open Ctrmml Ctrmml.Mds Tables
 
 /-- the residual hypotheses of `C09_full_partial` that can be decided on an export -/
 def fullPartialHyps (song : Song) (b : Built) : Bool :=
   decide ((song.tracks.map (·.1)).Pairwise (· < ·)) && decide (0 < b.trackList.length) &&
   (b.trackList.map (·.2) ++ b.conv.subList).all MdsRead.fragB && (b.trackStreams ++ b.subStreams).all (·.length < 65536)
+
+/-- the raw-opcode side condition on platform commands (`cmd`): the events a platform command
+injects have a defined encoding, do not end the stream and are no loop brackets (round 4) -/
+def platformFrag (d : DataInfo) : Bool :=
+  d.platform.all fun p => match p.2 with | some l => l.all MdsRead.neutralEv | none => true
+
+/-- the residual hypotheses of `C09_full_partial2` (the fragment is proved, round 4) -/
+def fullHyps (song : Song) (d : DataInfo) (b : Built) : Bool :=
+  decide ((song.tracks.map (·.1)).Pairwise (· < ·)) && decide (0 < b.trackList.length) && platformFrag d &&
+  (b.trackStreams ++ b.subStreams).all (·.length < 65536)
+
+/-- bytes of the `dblk` entries of the used data items: id 4 + item, plus header and pad -/
+def usedBytes (bank : List (List Nat)) : List (Nat × Nat) → Nat
+  | [] => 0
+  | p :: rest => 13 + ((bank[p.1 % (mdsFile_bankMask + 1)]?).getD []).length + usedBytes bank rest
+
+/-- the decidable size bound: everything `get_mds` copies into the file, with 64 bytes of slack
+for the fixed chunk headers -/
+def sizeBound (b : Built) (bank : List (List Nat)) (group pcm : Bytes) : Nat :=
+  group.length + b.seq.length + pcm.length + usedBytes bank (usedSorted b.conv)
+
+def exportSmall (b : Built) (bank : List (List Nat)) (group pcm : Bytes) : Bool :=
+  decide (sizeBound b bank group pcm + 64 ≤ 4294967296)
 
 end Ctrmml.MdsFile
